@@ -21,6 +21,7 @@ def _setup_paths():
   sys.path.insert(0, REPO)
   sys.dont_write_bytecode = True
   sys.setrecursionlimit(20000)
+  if hasattr(sys, "set_int_max_str_digits"): sys.set_int_max_str_digits(0)     # exact rationals can get very long
 
 
 def _load(pid):
